@@ -8,6 +8,8 @@ reference models written from the definitions (vf/oracles/computus.py):
   moslem   every date of years 1..2500 AH     one case = one Moslem year (354/355 dates)
   civil    every civil day 622-07-16..3000    one case = one civil year
 """
+import math
+
 from pymeeus.Epoch import Epoch
 
 from ..core import Violation, Task
@@ -301,6 +303,21 @@ def _g2m(y, m, d):
                         "gives %r" % (y, m, d, got, want), site=site,
                         kind="arithmetic_calendar:" + cls, civil=[y, m, d], got=list(g),
                         want=list(want), off_days=off)
+    if n % 7 == 0:
+        # a time of day carried as decimals of the day (the library's usual date form; the type
+        # check admits floats): the same civil day, or a refusal - never another date
+        fr = (0.25, 0.5, 0.75, 0.999)[(n // 7) % 4]
+        for dd in (float(d), d + fr):
+            try:
+                got2 = Epoch.gregorian2moslem(y, m, dd)
+            except (TypeError, ValueError):
+                continue
+            g2 = tuple(_as_int(v) for v in got2) if isinstance(got2, tuple) and len(got2) == 3 else None
+            if g2 != want:
+                raise Violation("gregorian2moslem(%d, %d, %r) = %r; for day %d of that month it is %r"
+                                % (y, m, dd, got2, d, want), site=site,
+                                kind="day_with_decimals:" + cls, civil=[y, m, dd], got=repr(got2),
+                                want=list(want))
     return g, cls
 
 
@@ -389,7 +406,37 @@ def tasks(tier, seed):
                         hi=EASTER_YEARS[1], mod=3, res=i))
     out.append(Task("t_range", clause="pesach", key="year", lo=PESACH_YEARS[0],
                     hi=PESACH_YEARS[1], mod=1, res=0))
+    # the same years in other orders, each in a process of its own (the answers are functions of
+    # the year: nothing asked earlier - in or outside the domain - may change them)
+    out.append(Task("t_order", clause="easter", lo=EASTER_YEARS[0], hi=EASTER_YEARS[1], how="descending", seed=seed))
+    out.append(Task("t_order", clause="easter", lo=EASTER_YEARS[0], hi=EASTER_YEARS[1], how="shuffled", seed=seed))
+    out.append(Task("t_order", clause="pesach", lo=PESACH_YEARS[0], hi=PESACH_YEARS[1], how="descending", seed=seed))
+    out.append(Task("t_order", clause="pesach", lo=PESACH_YEARS[0], hi=PESACH_YEARS[1], how="shuffled", seed=seed))
     return out
+
+
+def t_order(rec, clause, lo, hi, how, seed):
+    years = list(range(lo, hi + 1))
+    fn = Epoch.easter if clause == "easter" else Epoch.jewish_pesach
+    if how == "descending":
+        years.reverse()
+        prelude = list(range(hi + 3000, hi, -1)) + list(range(lo - 1, lo - 3001, -1))
+    else:
+        # a fixed permutation of the seed: multiplicative walk over the residues
+        n = len(years)
+        step = 7919 + 2 * (seed % 1000)
+        while math.gcd(step, n) != 1:
+            step += 1
+        years = [years[(i * step + seed) % n] for i in range(n)]
+        prelude = [lo - 1 - (i * 37) % 3000 for i in range(200)] + [hi + 1 + (i * 41) % 3000 for i in range(200)]
+    # years next to the domain are asked first; what they return (or raise) is not asserted
+    for y in prelude:
+        try:
+            fn(y)
+        except Exception:       # noqa: outside the domain of the property
+            pass
+    for y in years:
+        rec.case(clause, {"year": y})
 
 
 def t_range(rec, clause, key, lo, hi, mod, res):
